@@ -142,6 +142,9 @@ def ufunc_oracle(ctx, args, kwargs, result, exc, pre):
     bad &= ~tie
     if uf is np.divide:     # a denominator that is zero to rounding: inf vs 1e16 are both 'the quotient'
         bad &= np.abs(vb) > 1e-9 * max(float(np.max(np.abs(ov))), 1e-300)
+    if uf is np.power:      # 0**0 = 1 but 0**1e-17 = 0: base and exponent both zero to rounding is ill-conditioned
+        bad &= ~((np.abs(va) <= 1e-9 * max(float(np.max(np.abs(sv))), 1e-300)) &
+                 (np.abs(vb) <= 1e-9 * max(float(np.max(np.abs(ov))), 1e-300)))
     if bad.any():
         k = int(np.argmax(bad))
         ctx.check(False, 'value=op(interp)', f'ufunc|value|{uf.__name__}',
@@ -320,9 +323,15 @@ def workload(ctx, lentil):
                     for e in (wa[0], wa[-1], wb[0], wb[-1]):
                         tie |= np.abs(gnm - e) <= 1e-9 * e
                     v1, v2 = np.asarray(res.value, float), np.asarray(r2.value, float)
+                    ia_ = sm.interp_linear(gnm, wa, va, fill)
+                    ib_ = sm.interp_linear(gnm, wb, vb, fill)
                     if opn == 'divide':   # denominators that vanish to rounding are ill-conditioned, not evidence
-                        tie = tie | (np.abs(sm.interp_linear(gnm, wb, vb, fill)) <= 1e-9 * float(np.max(np.abs(vb))))
-                    same = bool(np.all(np.isclose(v1, v2, rtol=1e-8, atol=1e-300, equal_nan=True) | tie))
+                        tie = tie | (np.abs(ib_) <= 1e-9 * float(np.max(np.abs(vb))))
+                    if opn == 'power':    # 0**0 versus 0**1e-17
+                        tie = tie | ((np.abs(ia_) <= 1e-9 * float(np.max(np.abs(va)))) & (np.abs(ib_) <= 1e-9 * float(np.max(np.abs(vb)))))
+                    fin_ = np.isfinite(v1) & np.isfinite(v2)
+                    sc_ = max(float(np.max(np.abs(v1[fin_]))) if fin_.any() else 1.0, 1e-300)
+                    same = bool(np.all(np.isclose(v1, v2, rtol=1e-8, atol=1e-11 * sc_, equal_nan=True) | tie))
                 ctx.check(same, 'unit-agnostic', f'unit|{label}',
                           'the outcome depends on the wavelength unit in which the operands are expressed',
                           dict(desc, units=[x, y], n=[len(gnm), len(g2)]))
